@@ -34,6 +34,9 @@ Maps == [ any3 |-> VM(<<K(kA), K(kB), K(kC)>>, <<VI(1), VI(2), VI(3)>>),
           ikeys1 |-> VMg(<<VI(1), VD(1, 0), VN(VI(1), "i64")>>, <<VS(<<120>>), VS(<<121>>), VS(<<122>>)>>, "mii"),
           \* keys of different defined types with one value; NaN keys (which never equal themselves) next to ordinary ones
           ikeysT |-> VMg(<<VN(VI(1), "lvla"), VN(VI(1), "lvlb"), VN(VI(1), "i8")>>, <<VS(<<120>>), VS(<<121>>), VS(<<122>>)>>, "mii"),
+          \* pointer keys: three pointers to values that print alike; pointers into one array (its layout reversed in the "rev" runs)
+          ptrkeys |-> VMg(<<VI(1), VI(1), VI(1)>>, <<VS(<<120>>), VS(<<121>>), VS(<<122>>)>>, "mptr"),
+          ptrints |-> VMg(<<VI(3), VI(1), VI(2)>>, <<VS(<<120>>), VS(<<121>>), VS(<<122>>)>>, "mpint"),
           nankeys |-> VMg(<<VI(3), VI(1), VI(2)>>, <<VS(<<120>>), VS(<<121>>), VS(<<122>>)>>, "mfsnan"),
           nest |-> VM(<<K(<<112>>), K(<<113>>)>>, <<VM(<<K(kA), K(kB)>>, <<VI(1), VI(2)>>), VM(<<K(kC), K(kD)>>, <<VI(3), VI(4)>>)>>) ]
 
